@@ -95,14 +95,27 @@ func (r *rewriter) mutexMethod(c *ast.CallExpr) (string, ast.Expr, bool) {
 	default:
 		die("%s: unsupported %s.%s", r.pos(c), recv, name)
 	}
-	if len(s.Index()) != 1 {
-		die("%s: mutex method promoted through embedding is not supported", r.pos(c))
+	// x.Lock() where the mutex is embedded (possibly several levels deep): spell out the path to the mutex
+	recvExpr := sel.X
+	recvType := r.info.TypeOf(sel.X)
+	for _, idx := range s.Index()[:len(s.Index())-1] {
+		t := recvType
+		if p, ok := t.Underlying().(*types.Pointer); ok {
+			t = p.Elem()
+		}
+		st, ok := t.Underlying().(*types.Struct)
+		if !ok {
+			die("%s: cannot follow the embedding path to the mutex", r.pos(c))
+		}
+		f := st.Field(idx)
+		recvExpr = &ast.SelectorExpr{X: recvExpr, Sel: ast.NewIdent(f.Name())}
+		recvType = f.Type()
 	}
 	var ptr ast.Expr
-	if _, isPtr := r.info.TypeOf(sel.X).Underlying().(*types.Pointer); isPtr {
-		ptr = sel.X
+	if _, isPtr := recvType.Underlying().(*types.Pointer); isPtr {
+		ptr = recvExpr
 	} else {
-		ptr = &ast.UnaryExpr{Op: token.AND, X: sel.X}
+		ptr = &ast.UnaryExpr{Op: token.AND, X: recvExpr}
 	}
 	return name, ptr, true
 }
